@@ -46,6 +46,9 @@ func genC11(rt *rapid.T) core.Scenario {
 	case "ds":
 		sc.Store = StoreCfg{Kind: "ds", ChunkSize: rapid.SampledFrom([]int{0, 0, 64, 256}).Draw(rt, "chunk")}
 	}
+	if sc.Store.HideStreamer && sc.Store.Kind != "ds" {
+		sc.Store.ShortReads = rapid.IntRange(0, 2).Draw(rt, "shortReads") == 2
+	}
 	sc.BatchSize = rapid.SampledFrom([]int{0, 1, 2, 3, 5, 100}).Draw(rt, "batchSize")
 	sc.L = rapid.IntRange(0, 40).Draw(rt, "L")
 	if rapid.IntRange(0, 2).Draw(rt, "small") > 0 {
@@ -96,6 +99,7 @@ func (sc *C11Scenario) Execute(t *testing.T) *core.Outcome {
 		}
 		plan := FaultPlan{}
 		fc := newFcore(inner, plan, &rec)
+		fc.ShortReads = sc.Store.ShortReads
 		opts := []eventbus.Option{eventbus.WithStore(fc.wrap(sc.Store.HideStreamer))}
 		if sc.BatchSize > 0 {
 			opts = append(opts, eventbus.WithReplayBatchSize(sc.BatchSize))
